@@ -184,7 +184,7 @@ func c14OriginsOfCall(tb *c14Tables, x *ssa.Call, idx, n, depth int, seen map[ss
 func c14(r *core.Run) {
 	p := r.P
 	defer c14Extra(r)
-	r.Explanation = "Decides on the current source: both EWMA updates of the done-callback are convex combinations a·old + (1−a)·new of the atomically loaded old value (normal form, K7), with a weight that is 0 or exp(c·td), c < 0, td clamped at 0; the latency sample is now − start; the success target is 1000 except under Err != nil ∧ !Acceptable(Err), where it is 0, and Acceptable rejects exactly {DeadlineExceeded, Internal, Unavailable, DataLoss, Unimplemented}; Pick increments inflight of the chosen connection exactly once on every successful return (never on a failing one), returns that connection's conn and a callback bound to it, and the callback decrements the same counter exactly once on every path, with no other writer; picker state only under its lock; the chosen connection is an element of p.conns, which Build fills from ReadySCs with an initial score in [0,1000]; healthy ⇔ success > 500; the retry loop leaves early only when both candidates are healthy; choose returns the lower-load candidate unless the other one was not picked for more than 1 s; load ≡ ⌊√(lag+1)⌋·(inflight+1)."
+	r.Explanation = "Decides on the current source: both EWMA updates of the done-callback are convex combinations a·old + (1−a)·new of the atomically loaded old value (normal form, K7), with a weight that is 0 or exp(c·td), c < 0, td clamped at 0; the integer success score is that real value rounded towards the sample (up only when going up, down only when going down, never to nearest or by plain truncation); the latency sample is now − start; the success target is 1000 except under Err != nil ∧ !Acceptable(Err), where it is 0, and Acceptable rejects exactly {DeadlineExceeded, Internal, Unavailable, DataLoss, Unimplemented}; Pick increments inflight of the chosen connection exactly once on every successful return (never on a failing one), returns that connection's conn and a callback bound to it, and the callback decrements the same counter exactly once on every path, with no other writer; picker state only under its lock; the chosen connection is an element of p.conns, which Build fills from ReadySCs with an initial score in [0,1000]; healthy ⇔ success > 500; the retry loop leaves early only when both candidates are healthy; choose returns the lower-load candidate unless the other one was not picked for more than 1 s; load ≡ ⌊√(lag+1)⌋·(inflight+1)."
 	r.NotDecided = "selection frequencies, the number of completions until a failing backend turns unhealthy, the once-per-second bound under traffic, behaviour of concurrent completions (the EWMA read-modify-write is not atomic as a whole), float rounding."
 
 	pick := p.Func(p2cPkg, "p2cPicker", "Pick")
@@ -219,7 +219,7 @@ func c14(r *core.Run) {
 	for _, field := range []string{"lag", "success"} {
 		field := field
 		tf := "subConn." + field
-		r.Check("D1/K7/ewma-convex/"+field, "the value stored to "+tf+" by the done-callback has the normal form a·old + (1−a)·new, old being the atomic load of the same field of the same connection; the weight a is 0 or exp(c·td) with c < 0 and td ≥ 0", func(o *core.O) {
+		r.Check("D1/K7/ewma-convex/"+field, "the value stored to "+tf+" by the done-callback (for the success score: the real value under its rounding towards the sample) has the normal form a·old + (1−a)·new, old being the atomic load of the same field of the same connection; the weight a is 0 or exp(c·td) with c < 0 and td ≥ 0", func(o *core.O) {
 			if !o.Need(pick != nil && done != nil, "the closure stored into PickResult.Done by p2cPicker.Pick") || !o.Need(connVar != "", "the *subConn captured by the done-callback") {
 				return
 			}
@@ -238,6 +238,14 @@ func c14(r *core.Run) {
 				val := core.Forward(args[1])
 				if cv, ok := val.(*ssa.Convert); ok {
 					val = cv.X
+				}
+				if field == "success" {
+					// the score is the EWMA value rounded towards the sample (φ of a truncation and a
+					// ceil, …): the normal form is that of the one real value under the rounding
+					// skeleton; the rounding itself is D1/K7/success-rounds-towards-sample (c14_r9.go)
+					if rv := c14RealValue(args[1]); rv != nil {
+						val = rv
+					}
 				}
 				vals := map[string]ssa.Value{}
 				a := &core.Alg{Opaque: func(x ssa.Value) bool {
